@@ -341,6 +341,26 @@ pub fn oracle(tier: &str, seed: u64) -> (u64, Vec<Finding>) {
         }
     }
 
+    // ---- 3a. Romberg with a positive tolerance on polynomials that VANISH (up to a constant) at both end points and at the midpoint,
+    //      c0 + c (t-m)^2 ((t-m)^2 - h^2): the one-panel trapezoid and the Simpson estimate coincide (both see only c0), so a convergence test
+    //      applied too early stops on a wrong value; with k >= 3 levels (degree 4 <= 2k-1) the rule must still return the integral
+    for it in 0..iters / 4 {
+        let k = 3 + r.below(6) as usize;
+        let (a, b) = if it % 3 == 0 { (-1.0, 1.0) } else { let a = r.small_int(4); (a, a + 1.0 + r.below(5) as f64) };
+        let (m, h) = ((a + b) / 2.0, (b - a) / 2.0);
+        let (c0, c) = (r.small_int(3), if r.coin(0.5) { 1.0 } else { r.uniform(0.5, 3.0) });
+        // coefficients in t of c0 + c (u^4 - h^2 u^2), u = t - m
+        let p = vec![c0 + c * (m.powi(4) - h * h * m * m), c * (-4.0 * m.powi(3) + 2.0 * h * h * m), c * (6.0 * m * m - h * h), c * (-4.0 * m), c];
+        let want = poly_int(&p, a, b); let sc = poly_scale(&p, a, b);
+        let eps = *r.pick(&[1e-12, 1e-10, 1e-8]);
+        tried += 1;
+        let input = format!("romberg(polynomial coefficients {} (degree 4, equal values at a, b and the midpoint), a = {:e}, b = {:e}, eps = {:e}, nmax = {})", json_floats(&p), a, b, eps, k);
+        crumb(&input);
+        match catch(|| romberg(|x| horner(&p, x), a, b, eps, k)) {
+            Err(e) => fail("romberg:panics", 1.0, format!("panicked: {}", e), input),
+            Ok(g) => { let tol = 1e-6 * sc + f64::MIN_POSITIVE; if !((g - want).abs() <= tol) { fail("romberg:polynomial-not-exact", (g - want).abs() / tol, format!("returned {:e}, exact integral {:e}: stopped before the estimates could differ", g, want), input); } }
+        }
+    }
     // ---- 3. Romberg with k levels is exact up to degree 2k-1; Gauss-Legendre up to degree 9 at least (checked to 19)
     for it in 0..iters {
         let k = 1 + r.below(if thorough { 12 } else { 10 }) as usize;
